@@ -19,7 +19,7 @@ structure Acct (s : St) : Prop where
   rmOk : ∀ p ∈ s.resultmap, ∃ o : Op, s.ops[p.2]? = some o ∧ o.id = p.1 ∧ o.phase = .taken ∧ o.mail = .empty ∧
     (o.res = none ∨ (o.res = some .timeout ∧ p.1 ∈ s.scrubQ))
   smOk : ∀ p ∈ s.searchmap, ∃ (ch : Chan) (o : Op), s.chans[p.2]? = some ch ∧ s.ops[ch.opIdx]? = some o ∧ o.id = p.1 ∧
-    o.chan = some p.2 ∧ o.phase = .taken ∧ noDone ch ∧
+    o.chan = some p.2 ∧ o.phase = .taken ∧ o.mail = .ack ∧ noDone ch ∧
     ((ch.finScrub = true ∨ ch.timedOut = true ∨ o.res = some .timeout) → p.1 ∈ s.scrubQ) ∧
     (o.res = none ∨ o.res = some .ack ∨ o.res = some .timeout)
   chanFresh : ∀ (c : Nat) (ch : Chan) (o : Op), s.chans[c]? = some ch → s.ops[ch.opIdx]? = some o →
@@ -336,7 +336,8 @@ theorem Acct.enqueue {s s' : St} {ob : Obs} (h : Acct s) (i : Nat) (tmo : Option
           by_cases e : j = i
           · subst e
             rw [ho] at h1; cases h1
-            refine ⟨j, _, by rw [get_set _ j ho, if_pos rfl], h2, Or.inr (Or.inl ?_)⟩
+            refine ⟨j, { o with phase := .queued, deadline := tmo.map (s.now + ·) },
+              by rw [get_set _ j ho, if_pos rfl], h2, Or.inr (Or.inl ?_)⟩
             simp
           · refine ⟨j, oj, by rw [get_set _ j ho, if_neg e]; exact h1, h2, ?_⟩
             rcases h3 with r | r | r | r | r
@@ -347,5 +348,378 @@ theorem Acct.enqueue {s s' : St} {ob : Obs} (h : Acct s) (i : Nat) (tmo : Option
             · exact Or.inr (Or.inr (Or.inr (Or.inr r)))
         · intro hd2; exact absurd hrun hd2
         · intro c ch hc; rw [List.length_set]; exact a12 c ch hc
+
+theorem dropRx_get (cs : List Chan) (oc : Option Nat) (c : Nat) :
+    ∃ g : Chan → Chan, (dropRxOf cs oc)[c]? = (cs[c]?).map g ∧
+      ∀ ch, (g ch).opIdx = ch.opIdx ∧ (g ch).items = ch.items ∧ (g ch).finScrub = ch.finScrub ∧
+        (g ch).timedOut = ch.timedOut ∧ (g ch).taken = ch.taken := by
+  cases oc with
+  | none => exact ⟨id, by simp [dropRxOf], fun ch => ⟨rfl, rfl, rfl, rfl, rfl⟩⟩
+  | some d =>
+    by_cases e : c = d
+    · subst e
+      refine ⟨fun ch => { ch with rxAlive := false }, ?_, fun ch => ⟨rfl, rfl, rfl, rfl, rfl⟩⟩
+      simp [dropRxOf, modifyChan_get]
+    · refine ⟨id, ?_, fun ch => ⟨rfl, rfl, rfl, rfl, rfl⟩⟩
+      simp [dropRxOf, modifyChan_get, e]
+
+theorem dropRx_length (cs : List Chan) (oc : Option Nat) : (dropRxOf cs oc).length = cs.length := by
+  cases oc with
+  | none => rfl
+  | some d => simp only [dropRxOf, modifyChan]; split <;> simp
+
+/-- the future of op `i` resolves to `r` (a poll): the only things that change are its `res`, possibly
+one appended scrub request for its own ID, possibly the receiver flag of its channel -/
+theorem Acct.setRes {s : St} (h : Acct s) (i : Nat) (o : Op) (ho : s.ops[i]? = some o) (hres : o.res = none)
+    (hph : o.phase ≠ .allocated) (r : Res) (q' : List Nat) (oc : Option Nat)
+    (hr : (r = .ack ∧ o.mail = .ack ∧ q' = s.scrubQ) ∨ (∃ f, r = .frame f ∧ o.mail = .frame f ∧ q' = s.scrubQ) ∨
+      (r = .recvErr ∧ o.mail = .dropped ∧ q' = s.scrubQ) ∨
+      (r = .timeout ∧ o.mail = .empty ∧ q' = s.scrubQ ++ [o.id] ∧ s.drv = .running) ∨
+      (r = .scrubSendErr ∧ o.mail = .empty ∧ s.drv ≠ .running ∧ q' = s.scrubQ)) :
+    Acct { s with ops := s.ops.set i { o with res := some r }, scrubQ := q', chans := dropRxOf s.chans oc } := by
+  obtain ⟨a1, a2, a3, a4, a5, a6, a7, a8, a9, a10, a11, a12⟩ := h
+  have hsub : ∀ k, k ∈ s.scrubQ → k ∈ q' := by
+    intro k hk
+    rcases hr with ⟨_, _, e⟩ | ⟨f, _, _, e⟩ | ⟨_, _, e⟩ | ⟨_, _, e, _⟩ | ⟨_, _, _, e⟩ <;> rw [e] <;> simp [hk]
+  -- lookups
+  have hget : ∀ (j : Nat) (oj : Op), (s.ops.set i { o with res := some r })[j]? = some oj →
+      (j = i ∧ oj = { o with res := some r }) ∨ (j ≠ i ∧ s.ops[j]? = some oj) := by
+    intro j oj hoj
+    rw [get_set _ j ho] at hoj
+    split at hoj
+    · next e => simp only [Option.some.injEq] at hoj; exact Or.inl ⟨e, hoj.symm⟩
+    · next e => exact Or.inr ⟨e, hoj⟩
+  have hput : ∀ (j : Nat) (oj : Op), s.ops[j]? = some oj → j ≠ i → (s.ops.set i { o with res := some r })[j]? = some oj := by
+    intro j oj hoj hne
+    rw [get_set _ j ho, if_neg hne]; exact hoj
+  have hputi : (s.ops.set i { o with res := some r })[i]? = some { o with res := some r } := by
+    rw [get_set _ i ho, if_pos rfl]
+  -- a queued op has an empty mailbox, so it can only have timed out, with the driver running
+  have hqueued : o.phase ≠ .taken → r = .timeout ∧ q' = s.scrubQ ++ [o.id] := by
+    intro hnt
+    have hm := (a3 i o ho hnt).1
+    rcases hr with ⟨_, e, _⟩ | ⟨f, _, e, _⟩ | ⟨_, e, _⟩ | ⟨e1, _, e2, _⟩ | ⟨_, _, hd, _⟩
+    · rw [hm] at e; cases e
+    · rw [hm] at e; cases e
+    · rw [hm] at e; cases e
+    · exact ⟨e1, e2⟩
+    · exfalso
+      have hq : o.phase = .queued := by
+        cases hp : o.phase with
+        | allocated => exact absurd hp hph
+        | queued => rfl
+        | taken => exact absurd hp hnt
+      have := a2 i o ho hq
+      rw [(a11 hd).2.2] at this; cases this
+  refine ⟨?_, ?_, ?_, ?_, ?_, ?_, ?_, ?_, ?_, ?_, ?_, ?_⟩
+  · intro j hj
+    obtain ⟨oj, hoj, hp⟩ := a1 j hj
+    by_cases e : j = i
+    · subst e; rw [ho] at hoj; cases hoj; exact ⟨{ o with res := some r }, hputi, hp⟩
+    · exact ⟨oj, hput j oj hoj e, hp⟩
+  · intro j oj hoj hp
+    rcases hget j oj hoj with ⟨e, rfl⟩ | ⟨_, h1⟩
+    · subst e; exact a2 j o ho hp
+    · exact a2 j oj h1 hp
+  · intro j oj hoj hp
+    rcases hget j oj hoj with ⟨e, rfl⟩ | ⟨_, h1⟩
+    · subst e
+      have hq := hqueued hp
+      have := a3 j o ho hp
+      refine ⟨this.1, Or.inr ⟨by rw [hq.1], ?_⟩⟩
+      cases hpp : o.phase with
+      | allocated => exact absurd hpp hph
+      | queued => rfl
+      | taken => exact absurd hpp hp
+    · exact a3 j oj h1 hp
+  · intro j oj hoj
+    rcases hget j oj hoj with ⟨e, rfl⟩ | ⟨_, h1⟩
+    · subst e; exact a4 j o ho
+    · exact a4 j oj h1
+  · intro p hp
+    obtain ⟨op, hop, hid, hpt, hm, hrs⟩ := a5 p hp
+    by_cases e : p.2 = i
+    · rw [e, ho] at hop; cases hop
+      refine ⟨{ o with res := some r }, by rw [e]; exact hputi, hid, hpt, hm, ?_⟩
+      rcases hr with ⟨_, e2, _⟩ | ⟨f, _, e2, _⟩ | ⟨_, e2, _⟩ | ⟨e1, _, e2, _⟩ | ⟨_, _, hd, _⟩
+      · rw [hm] at e2; cases e2
+      · rw [hm] at e2; cases e2
+      · rw [hm] at e2; cases e2
+      · right; exact ⟨by rw [e1], by rw [e2, ← hid]; simp⟩
+      · rw [(a11 hd).1] at hp; cases hp
+    · refine ⟨op, hput _ op hop e, hid, hpt, hm, ?_⟩
+      rcases hrs with h1 | ⟨h1, h2⟩
+      · exact Or.inl h1
+      · exact Or.inr ⟨h1, hsub _ h2⟩
+  · intro p hp
+    obtain ⟨ch, op, hc, hop, hid, hch, hpt, hm, hnd, himp, hrs⟩ := a6 p hp
+    obtain ⟨g, hg, hgp⟩ := dropRx_get s.chans oc p.2
+    have hc' : (dropRxOf s.chans oc)[p.2]? = some (g ch) := by rw [hg, hc]; rfl
+    obtain ⟨g1, g2, g3, g4, _⟩ := hgp ch
+    by_cases e : ch.opIdx = i
+    · rw [e, ho] at hop; cases hop
+      -- the op is processed: its mailbox holds the acknowledgement
+      have hrack : r = .ack ∧ q' = s.scrubQ := by
+        rcases hr with ⟨e1, _, e2⟩ | ⟨f, _, e2, _⟩ | ⟨_, e2, _⟩ | ⟨_, e2, _⟩ | ⟨_, e2, _⟩
+        · exact ⟨e1, e2⟩
+        all_goals (rw [hm] at e2; cases e2)
+      have hfr := (a7 p.2 ch o hc (by rw [e]; exact ho)).1 (by rw [hres]; simp)
+      refine ⟨g ch, { o with res := some r }, hc', by rw [g1, e]; exact hputi, hid, hch, hpt, hm, ?_, ?_, ?_⟩
+      · intro f hf; rw [g2] at hf; exact hnd f hf
+      · intro hh
+        rw [g3, g4, hfr.1, hfr.2, hrack.1] at hh
+        simp at hh
+      · right; left; rw [hrack.1]
+    · refine ⟨g ch, op, hc', by rw [g1]; exact hput _ op hop e, hid, hch, hpt, hm, ?_, ?_, hrs⟩
+      · intro f hf; rw [g2] at hf; exact hnd f hf
+      · intro hh; rw [g3, g4] at hh; exact hsub _ (himp hh)
+  · intro c ch' oj hc' hoj
+    obtain ⟨g, hg, hgp⟩ := dropRx_get s.chans oc c
+    rw [hg] at hc'
+    cases hcc : s.chans[c]? with
+    | none => rw [hcc] at hc'; cases hc'
+    | some ch =>
+      rw [hcc] at hc'
+      simp only [Option.map_some, Option.some.injEq] at hc'
+      subst hc'
+      obtain ⟨g1, g2, g3, g4, _⟩ := hgp ch
+      rw [g1] at hoj
+      rw [g2, g3, g4]
+      rcases hget _ oj hoj with ⟨e, rfl⟩ | ⟨_, h1⟩
+      · have := a7 c ch o hcc (by rw [e]; exact ho)
+        exact ⟨fun _ => this.1 (by rw [hres]; simp), this.2⟩
+      · exact a7 c ch oj hcc h1
+  · intro j hj oj hoj hto
+    rcases hget j oj hoj with ⟨e, rfl⟩ | ⟨_, h1⟩
+    · subst e
+      obtain ⟨o2, ho2, hp2⟩ := a1 j hj
+      rw [ho] at ho2; cases ho2
+      have := hqueued (by rw [hp2]; simp)
+      left; rw [this.2]; simp
+    · rcases a8 j hj oj h1 hto with h2 | h2
+      · exact Or.inl (hsub _ h2)
+      · exact Or.inr h2
+  · intro j oj hoj hh
+    rcases hget j oj hoj with ⟨e, rfl⟩ | ⟨_, h1⟩
+    · subst e
+      simp only [Option.some.injEq] at hh
+      rcases hh with hh | hh
+      · rcases hr with ⟨_, e2, _⟩ | ⟨f, e1, _, _⟩ | ⟨e1, _, _⟩ | ⟨e1, _, _⟩ | ⟨e1, _, _⟩
+        · exact a9 j o ho (Or.inr e2)
+        all_goals (rw [e1] at hh; cases hh)
+      · exact a9 j o ho (Or.inr hh)
+    · exact a9 j oj h1 hh
+  · intro hrun k hk
+    obtain ⟨j, oj, h1, h2, h3⟩ := a10 hrun k hk
+    by_cases e : j = i
+    · subst e; rw [ho] at h1; cases h1
+      exact ⟨j, { o with res := some r }, hputi, h2, h3⟩
+    · exact ⟨j, oj, hput j oj h1 e, h2, h3⟩
+  · exact a11
+  · intro c ch' hc'
+    obtain ⟨g, hg, hgp⟩ := dropRx_get s.chans oc c
+    rw [hg] at hc'
+    cases hcc : s.chans[c]? with
+    | none => rw [hcc] at hc'; cases hc'
+    | some ch =>
+      rw [hcc] at hc'
+      simp only [Option.map_some, Option.some.injEq] at hc'
+      subst hc'
+      rw [(hgp ch).1, List.length_set]
+      exact a12 c ch hcc
+
+theorem Acct.poll {s s' : St} {ob : Obs} (h : Acct s) (i : Nat)
+    (hs : step s (.poll i) = some (s', ob)) : Acct s' := by
+  simp only [step] at hs
+  cases ho : s.ops[i]? with
+  | none => rw [ho] at hs; cases hs
+  | some o =>
+    rw [ho] at hs
+    simp only at hs
+    split at hs
+    · cases hs
+    · next hcond =>
+      have hres : o.res = none := by
+        cases hr : o.res with
+        | none => rfl
+        | some x => exfalso; apply hcond; left; simp [hr]
+      have hph : o.phase ≠ .allocated := fun e => hcond (Or.inr e)
+      cases hm : o.mail with
+      | ack =>
+        rw [hm] at hs
+        simp only [Option.some.injEq, Prod.mk.injEq] at hs
+        rw [← hs.1]
+        have := h.setRes i o ho hres hph .ack s.scrubQ none (Or.inl ⟨rfl, hm, rfl⟩)
+        simpa [dropRxOf, hm] using this
+      | frame f =>
+        rw [hm] at hs
+        simp only [Option.some.injEq, Prod.mk.injEq] at hs
+        rw [← hs.1]
+        have := h.setRes i o ho hres hph (.frame f) s.scrubQ none (Or.inr (Or.inl ⟨f, rfl, hm, rfl⟩))
+        simpa [dropRxOf, hm] using this
+      | dropped =>
+        rw [hm] at hs
+        simp only [Option.some.injEq, Prod.mk.injEq] at hs
+        rw [← hs.1]
+        have := h.setRes i o ho hres hph .recvErr s.scrubQ o.chan (Or.inr (Or.inr (Or.inl ⟨rfl, hm, rfl⟩)))
+        simpa [hm] using this
+      | empty =>
+        rw [hm] at hs
+        simp only at hs
+        split at hs
+        · split at hs
+          · split at hs
+            · next hrun =>
+              simp only [Option.some.injEq, Prod.mk.injEq] at hs
+              rw [← hs.1]
+              have := h.setRes i o ho hres hph .timeout (s.scrubQ ++ [o.id]) o.chan
+                (Or.inr (Or.inr (Or.inr (Or.inl ⟨rfl, hm, rfl, hrun⟩))))
+              simpa [hm] using this
+            · next hrun =>
+              simp only [Option.some.injEq, Prod.mk.injEq] at hs
+              rw [← hs.1]
+              have := h.setRes i o ho hres hph .scrubSendErr s.scrubQ o.chan
+                (Or.inr (Or.inr (Or.inr (Or.inr ⟨rfl, hm, hrun, rfl⟩))))
+              simpa [hm] using this
+          · simp only [Option.some.injEq, Prod.mk.injEq] at hs; rw [← hs.1]; exact h
+        · simp only [Option.some.injEq, Prod.mk.injEq] at hs; rw [← hs.1]; exact h
+
+/-- a stream-side action on channel `c` (whose search has been acknowledged): cursor / receiver flag /
+ghost flags change, possibly with a scrub request for the search's own ID -/
+theorem Acct.chanUpd {s : St} (h : Acct s) (c : Nat) (ch : Chan) (o : Op) (hc : s.chans[c]? = some ch)
+    (ho : s.ops[ch.opIdx]? = some o) (hack : o.res = some .ack) (ch' : Chan) (hidx : ch'.opIdx = ch.opIdx)
+    (hitems : ch'.items = ch.items) (q' : List Nat)
+    (hq : q' = s.scrubQ ∨ q' = s.scrubQ ++ [o.id])
+    (hfin : ch'.finScrub = true → ch.finScrub = true ∨ q' = s.scrubQ ++ [o.id] ∨ s.drv ≠ .running)
+    (hto : ch'.timedOut = true → ch.timedOut = true ∨ q' = s.scrubQ ++ [o.id] ∨ s.drv ≠ .running) :
+    Acct { s with chans := s.chans.set c ch', scrubQ := q' } := by
+  obtain ⟨a1, a2, a3, a4, a5, a6, a7, a8, a9, a10, a11, a12⟩ := h
+  have hclt : c < s.chans.length := (List.getElem?_eq_some_iff.mp hc).1
+  have hsub : ∀ k, k ∈ s.scrubQ → k ∈ q' := by
+    intro k hk; rcases hq with e | e <;> rw [e] <;> simp [hk]
+  have hget : ∀ (d : Nat) (chd : Chan), (s.chans.set c ch')[d]? = some chd →
+      (d = c ∧ chd = ch') ∨ (d ≠ c ∧ s.chans[d]? = some chd) := by
+    intro d chd hd
+    rw [List.getElem?_set] at hd
+    split at hd
+    · next e => simp only [hclt, if_true, Option.some.injEq] at hd; exact Or.inl ⟨e.symm, hd.symm⟩
+    · next e => exact Or.inr ⟨fun x => e x.symm, hd⟩
+  refine ⟨a1, a2, a3, a4, ?_, ?_, ?_, ?_, a9, ?_, a11, ?_⟩
+  · intro p hp
+    obtain ⟨op, hop, hid, hpt, hm, hrs⟩ := a5 p hp
+    refine ⟨op, hop, hid, hpt, hm, ?_⟩
+    rcases hrs with h1 | ⟨h1, h2⟩
+    · exact Or.inl h1
+    · exact Or.inr ⟨h1, hsub _ h2⟩
+  · intro p hp
+    obtain ⟨chp, op, hcp, hop, hid, hch, hpt, hm, hnd, himp, hrs⟩ := a6 p hp
+    by_cases e : p.2 = c
+    · rw [e, hc] at hcp; cases hcp
+      rw [ho] at hop; cases hop
+      refine ⟨ch', o, by rw [e]; simp [hclt], by rw [hidx]; exact ho, hid, hch, hpt, hm, ?_, ?_, hrs⟩
+      · intro f hf; rw [hitems] at hf; exact hnd f hf
+      · have hrun : s.drv = .running := by
+          cases hd : s.drv with
+          | running => rfl
+          | endedOk => have := (a11 (by rw [hd]; simp)).2.1; rw [this] at hp; cases hp
+          | endedErr => have := (a11 (by rw [hd]; simp)).2.1; rw [this] at hp; cases hp
+        intro hh
+        rcases hh with hh | hh | hh
+        · rcases hfin hh with h1 | h1 | h1
+          · exact hsub _ (himp (Or.inl h1))
+          · rw [h1, ← hid]; simp
+          · exact absurd hrun h1
+        · rcases hto hh with h1 | h1 | h1
+          · exact hsub _ (himp (Or.inr (Or.inl h1)))
+          · rw [h1, ← hid]; simp
+          · exact absurd hrun h1
+        · exact hsub _ (himp (Or.inr (Or.inr hh)))
+    · refine ⟨chp, op, ?_, hop, hid, hch, hpt, hm, hnd, fun hh => hsub _ (himp hh), hrs⟩
+      rw [List.getElem?_set, if_neg (fun x => e x.symm)]; exact hcp
+  · intro d chd od hd hod
+    rcases hget d chd hd with ⟨e, rfl⟩ | ⟨_, h1⟩
+    · rw [hidx, ho] at hod; cases hod
+      have := a7 c ch o hc ho
+      exact ⟨fun hne => absurd hack hne, fun hp => by rw [hitems]; exact this.2 hp⟩
+    · exact a7 d chd od h1 hod
+  · intro j hj oj hoj hto2
+    rcases a8 j hj oj hoj hto2 with h2 | h2
+    · exact Or.inl (hsub _ h2)
+    · exact Or.inr h2
+  · intro hrun k hk
+    exact a10 hrun k hk
+  · intro d chd hd
+    rcases hget d chd hd with ⟨e, rfl⟩ | ⟨_, h1⟩
+    · rw [hidx]; exact a12 c ch hc
+    · exact a12 d chd h1
+
+theorem ack_of_guard {s : St} {ch : Chan} (h : ¬ (s.ops[ch.opIdx]?.bind (·.res)) ≠ some Res.ack) :
+    ∃ o : Op, s.ops[ch.opIdx]? = some o ∧ o.res = some .ack := by
+  have h' : (s.ops[ch.opIdx]?.bind (·.res)) = some Res.ack := by simpa using h
+  cases ho : s.ops[ch.opIdx]? with
+  | none => rw [ho] at h'; cases h'
+  | some o => rw [ho] at h'; exact ⟨o, rfl, h'⟩
+
+theorem Acct.recv {s s' : St} {ob : Obs} (h : Acct s) (c : Nat) (dl : Option Nat)
+    (hs : step s (.recv c dl) = some (s', ob)) : Acct s' := by
+  simp only [step] at hs
+  cases hc : s.chans[c]? with
+  | none => rw [hc] at hs; cases hs
+  | some ch =>
+    rw [hc] at hs
+    simp only at hs
+    split at hs
+    · cases hs
+    · next hg =>
+      obtain ⟨o, ho, hack⟩ := ack_of_guard hg
+      split at hs
+      · cases hs
+      · split at hs
+        · simp only [Option.some.injEq, Prod.mk.injEq] at hs
+          rw [← hs.1]
+          have := h.chanUpd c ch o hc ho hack { ch with taken := ch.taken + 1 } rfl rfl s.scrubQ (Or.inl rfl)
+            (fun x => Or.inl x) (fun x => Or.inl x)
+          simpa using this
+        · split at hs
+          · simp only [Option.some.injEq, Prod.mk.injEq] at hs; rw [← hs.1]; exact h
+          · split at hs
+            · split at hs
+              · rw [ho] at hs
+                simp only at hs
+                split at hs
+                · simp only [Option.some.injEq, Prod.mk.injEq] at hs; rw [← hs.1]
+                  exact h.chanUpd c ch o hc ho hack { ch with timedOut := true } rfl rfl (s.scrubQ ++ [o.id]) (Or.inr rfl)
+                    (fun x => Or.inl x) (fun _ => Or.inr (Or.inl rfl))
+                · simp only [Option.some.injEq, Prod.mk.injEq] at hs; rw [← hs.1]; exact h
+              · simp only [Option.some.injEq, Prod.mk.injEq] at hs; rw [← hs.1]; exact h
+            · simp only [Option.some.injEq, Prod.mk.injEq] at hs; rw [← hs.1]; exact h
+
+theorem Acct.finish {s s' : St} {ob : Obs} (h : Acct s) (c : Nat) (b : Bool)
+    (hs : step s (.finish c b) = some (s', ob)) : Acct s' := by
+  simp only [step] at hs
+  cases hc : s.chans[c]? with
+  | none => rw [hc] at hs; cases hs
+  | some ch =>
+    rw [hc] at hs
+    simp only at hs
+    split at hs
+    · cases hs
+    · next hg =>
+      obtain ⟨o, ho, hack⟩ := ack_of_guard hg
+      split at hs
+      · cases hs
+      · rw [ho] at hs
+        simp only [Option.some.injEq, Prod.mk.injEq] at hs
+        rw [← hs.1]
+        by_cases hb : b = true ∧ s.drv = .running
+        · rw [if_pos hb]
+          exact h.chanUpd c ch o hc ho hack { ch with rxAlive := false, finScrub := b } rfl rfl _ (Or.inr rfl)
+            (fun _ => Or.inr (Or.inl rfl)) (fun x => Or.inl x)
+        · rw [if_neg hb]
+          refine h.chanUpd c ch o hc ho hack { ch with rxAlive := false, finScrub := b } rfl rfl _ (Or.inl rfl)
+            (fun x => ?_) (fun x => Or.inl x)
+          simp only at x
+          right; right
+          intro hrun; exact hb ⟨x, hrun⟩
 
 end Ldap3V.Conn
